@@ -747,8 +747,14 @@ def class_programs(rep: Report, rng: Rng, nprog: int):
             cfg["average"] = rng.choice(["macro", None])
         p = Prog(spec, cfg)
         k = rng.randint(1, 3)
+        wide_scores = name.startswith("Binary") and rng.random() < 0.35
         for _b in range(rng.randint(1, 4)):
-            p.u(rng.randrange(k), spec.gen(rng, cfg, rng.choice([1, 2, 3, 7])))
+            b = spec.gen(rng, cfg, rng.choice([1, 2, 3, 7]))
+            if wide_scores and isinstance(b.args[0], torch.Tensor) and b.args[0].is_floating_point():
+                # raw scores (logits): the same grid stretched to [-1/2, 3/2] — below the first and above the last threshold, in every task
+                from ..registry import Batch as _Batch
+                b = _Batch((b.args[0] * 2 - 0.5, *b.args[1:]), dict(b.kwargs))
+            p.u(rng.randrange(k), b)
         if k > 1:
             p.m(0, list(range(1, k)))
         p.o(0)
